@@ -80,8 +80,13 @@ def pair_case(draw):
         tgt['ops'] = tgt['ops'] + [{'op': 'translate', 'shift': [draw(st.sampled_from([0.013, -0.029, 0.0071])),
                                                                draw(st.sampled_from([0.017, -0.0093, 0.0231])),
                                                                draw(st.sampled_from([0.0011, -0.0037, 0.0053]))]}]
+    prior = draw(st.sampled_from([None, None, None, 'translate', 'translate', 'rotate']))
+    if prior == 'translate':
+        prior = ['translate', [draw(st.sampled_from([0.0, 7.3, -41.0, 260.0])), draw(st.sampled_from([0.0, -6.1, 33.0])),
+                               draw(st.sampled_from([0.0, 0.0, -4.5, 13.0]))]]
+    elif prior == 'rotate': prior = ['rotate', draw(st.sampled_from([90.0, 33.0, -120.0]))]
     return {'k': 'pair', 'mode': mode, 'src': src, 'tgt': tgt, 'nvar': draw(st.integers(1, 8)),
-            'explicit': draw(st.sampled_from([False, False, True]))}
+            'explicit': draw(st.sampled_from([False, False, True])), 'prior': prior}
 
 
 @st.composite
@@ -117,6 +122,9 @@ def atmos_grid_cases():
                 if var == 'surf': tgt['surfaces'] = []
                 for nvar in (1, 3):
                     out.append({'k': 'pair', 'mode': 'grid:' + var, 'src': src, 'tgt': tgt, 'nvar': nvar, 'explicit': False})
+                if var in ('same', 'refine'):
+                    out.append({'k': 'pair', 'mode': 'grid:' + var, 'src': src, 'tgt': tgt, 'nvar': 2, 'explicit': False,
+                                'prior': ['translate', [13.0, 11.0, 0.0]] if var == 'same' else ['rotate', 90.0]})
     return out
 
 
@@ -186,7 +194,17 @@ def run_pair(case, R):
     if bad:
         for b in set(bad): R.exclude('input:' + b)
         return
-    identity = case['mode'] in ('self', 'copy')
+    prior = case.get('prior')
+    if prior:
+        # the source geometry has a past: it served as the source of a mapping, then was moved (in place).  The
+        # mappings judged below are those of the geometry as it now is.
+        R.label('source:mapped-then-' + prior[0])
+        with R.lib('prior-mapping'):
+            src.column_mapping(src); src.block_mapping(src, True)
+        with R.lib('prior-' + prior[0]):
+            if prior[0] == 'translate': src.translate(np.array([float(v) for v in prior[1]]))
+            else: src.rotate(float(prior[1]))
+    identity = case['mode'] in ('self', 'copy') and not (prior and case['mode'] == 'copy')
     if case['mode'] == 'copy' and geo.extract(src) != geo.extract(tgt):
         identity = False; R.label('copy:rebuild-not-reproducible')
     sa, ta = src.atmosphere_type, tgt.atmosphere_type
